@@ -725,12 +725,16 @@ func (ex *Exec) evalLocs(e *SExpr, env *SpecEnv) []Loc {
 	case "call":
 		if e.Args[0].Op == "ident" {
 			if g, ok := ex.P.cs.Ghosts[e.Args[0].Name]; ok && !g.Immutable {
-				v, _ := ex.evalSpec(e.Args[1], env)
 				var r *Term
-				if iv, ok := v.(*IfaceV); ok {
-					r = iv.Data
+				if len(e.Args) < 2 {
+					r = Null // a global ghost variable
 				} else {
-					r = flat(v)[0]
+					v, _ := ex.evalSpec(e.Args[1], env)
+					if iv, ok := v.(*IfaceV); ok {
+						r = iv.Data
+					} else {
+						r = flat(v)[0]
+					}
 				}
 				var out []Loc
 				for _, l := range leaves(ex.resolveType(g.Ret, g.Pkg)) {
@@ -1235,6 +1239,9 @@ func (ex *Exec) reachableComps(t types.Type, seen map[string]bool, out *[]string
 func calleeName(c *ssa.CallCommon) string {
 	if c.IsInvoke() {
 		return c.Method.Name()
+	}
+	if b, ok := c.Value.(*ssa.Builtin); ok {
+		return b.Name()
 	}
 	if f := c.StaticCallee(); f != nil {
 		return f.Name()
